@@ -85,6 +85,8 @@ type Ctx struct {
 	lits  []*ast.CompositeLit
 	gwCache map[*ssa.Global]bool
 	bce     map[string]bool
+	powerCache *powerSrc
+	tableDone  bool
 	bceErr  error
 	subst   map[*ssa.Parameter]ssa.Value
 	helperSites map[*ssa.Function][]*ssa.Call
